@@ -1,20 +1,29 @@
 import Driver.Proto
 import Driver.Kw
+import Driver.Stmts
 import Driver.Cursor
 import Driver.Lists
 import Driver.Pratt
 import Driver.Tok
+import Driver.Escape
+import Driver.Visit
+import Driver.Serde
 /-! Model driver: one request per line `op \t arg …`, one answer per line. -/
 namespace Driver
 
 def dispatch (line : String) : String :=
   match line.splitOn "\t" with
   | "kw" :: args => handleKw args
+  | "stmts" :: args => handleStmts args
   | "cursor" :: args => handleCursor args
   | "lists" :: args => handleLists args
   | "prec" :: args => Pr.handlePrec args
   | "chains" :: args => Pr.handleChains args
+  | "setops" :: args => Pr.handleSetops args
   | "tok" :: args => handleTok args
+  | "print" :: args => handlePrint args
+  | "visit" :: args => handleVisit args
+  | "serde" :: args => handleSerde args
   | _ => "bad-op"
 
 partial def loop (h : IO.FS.Stream) (out : IO.FS.Stream) : IO Unit := do
